@@ -80,29 +80,39 @@ pub fn check_s2m(data: &[u8], recs: &[Rec], w: usize, m: usize) -> Result<(), (S
     if parsed.len() != recs.len() {
         return Err(("s2m.linecount".into(), format!("{} lines for {} records", parsed.len(), recs.len())));
     }
-    let mut by_id: BTreeMap<&str, &Vec<Run>> = BTreeMap::new();
-    for (id, runs) in &parsed {
-        if by_id.insert(id.as_str(), runs).is_some() {
-            return Err(("s2m.duplicate_id".into(), format!("record id {} appears on two lines", id)));
+    // ids need not be unique (mates under one id, a record present twice): compare the *multiset* of
+    // (id, runs) lines; for unique ids this is the per-id comparison
+    let mut exp_lines: Vec<(String, Vec<Run>)> = recs.iter().map(|r| (r.id.clone(), ref_runs(&r.seq, w, m))).collect();
+    let mut got_lines: Vec<(String, Vec<Run>)> = parsed.clone();
+    exp_lines.sort();
+    got_lines.sort();
+    if exp_lines != got_lines {
+        // find a telling difference
+        let mut by_id: BTreeMap<&str, Vec<&Vec<Run>>> = BTreeMap::new();
+        for (id, runs) in &parsed {
+            by_id.entry(id.as_str()).or_default().push(runs);
         }
-    }
-    for r in recs {
-        let got = match by_id.get(r.id.as_str()) {
-            Some(g) => *g,
-            None => return Err(("s2m.missing_id".into(), format!("no line for record {}", r.id))),
-        };
-        let exp = ref_runs(&r.seq, w, m);
-        if got != &exp {
-            let sig = if got.iter().any(|g| !exp.iter().any(|e| e.0 == g.0)) && got.iter().any(|g| g.0.bytes().all(|b| b == b'T')) && !exp.iter().any(|e| e.0.bytes().all(|b| b == b'T')) {
-                "s2m.placeholder"
-            } else {
-                "s2m.runs"
-            };
-            return Err((
-                sig.into(),
-                format!("record {} (len {}): listed runs {:?} != expected {:?}", r.id, r.seq.len(), &got[..got.len().min(6)], &exp[..exp.len().min(6)]),
-            ));
+        for r in recs {
+            let exp = ref_runs(&r.seq, w, m);
+            match by_id.get(r.id.as_str()) {
+                None => return Err(("s2m.missing_id".into(), format!("no line for record {}", r.id))),
+                Some(cands) => {
+                    if !cands.iter().any(|g| **g == exp) {
+                        let got = cands[0];
+                        let sig = if got.iter().any(|g| !exp.iter().any(|e| e.0 == g.0)) && got.iter().any(|g| g.0.bytes().all(|b| b == b'T')) && !exp.iter().any(|e| e.0.bytes().all(|b| b == b'T')) {
+                            "s2m.placeholder"
+                        } else {
+                            "s2m.runs"
+                        };
+                        return Err((
+                            sig.into(),
+                            format!("record {} (len {}): listed runs {:?} != expected {:?}", r.id, r.seq.len(), &got[..got.len().min(6)], &exp[..exp.len().min(6)]),
+                        ));
+                    }
+                }
+            }
         }
+        return Err(("s2m.lines_multiset".into(), "the multiset of (id, runs) lines differs from the expected one (duplicate or missing line for a repeated id)".into()));
     }
     Ok(())
 }
@@ -200,6 +210,16 @@ fn gen_case(rng: &mut Rng, max_recs: usize, cli: bool) -> (Vec<Rec>, usize, usiz
                 r.seq = proto[..proto.len() - (j % 5).min(proto.len().saturating_sub(m))].to_vec();
             }
         }
+    }
+    if rng.chance(1, 8) && recs.len() >= 2 {
+        // repeated ids: a record present twice, and "mates" under one id (second = reverse complement of the first)
+        let n = recs.len();
+        let a = rng.usize(0, n - 1);
+        let dup = recs[a].clone();
+        recs.push(dup);
+        let b = rng.usize(0, n - 1);
+        let mate = Rec { id: recs[b].id.clone(), desc: None, seq: model::revcomp_text(&recs[b].seq) };
+        recs.push(mate);
     }
     (recs, w, m)
 }
